@@ -136,6 +136,14 @@ Theorem C12_target_is_fold : forall en tc t ss ps forced,
     end).
 Proof. exact target_is_fold. Qed.
 
+(* the forced overlay is applied to the template, again after the overlays and
+   once more on create: re-applying it changes nothing (so the [] case above is
+   the same formula as the general one) *)
+Theorem C12_forced_overlay_idempotent : forall forced m,
+  wf (JMap forced) = true -> wf (JMap m) = true ->
+  forced_merge forced (forced_merge forced m) = forced_merge forced m.
+Proof. exact forced_merge_idem. Qed.
+
 (* the loop alone, without the forced overlay *)
 Theorem C12_overlays_fold_in_listed_order : forall en ss ps cur,
   mapM prepare_step ss = Some ps -> Forall wf_sstep ss ->
@@ -229,6 +237,7 @@ Print Assumptions C12_merge_val_key_by_key.
 Print Assumptions C12_merge_val_replaces.
 Print Assumptions C12_vf_return_is_merge.
 Print Assumptions C12_target_is_fold.
+Print Assumptions C12_forced_overlay_idempotent.
 Print Assumptions C12_overlays_fold_in_listed_order.
 Print Assumptions C12_step.
 Print Assumptions C12_create_is_merge.
